@@ -195,7 +195,7 @@ class World(BaseWorld):
     def gen_op(self, rng):
         types = self.L.order
         table = [(40, 'lookup'), (8, 'regen'), (8, 'new_lg'), (6, 'new_factory'),
-                 (14, 'gen_ag'), (4, 'save_spec')]
+                 (14, 'gen_ag'), (4, 'save_spec'), (6, 'scribble')]
         kind = weighted(rng, table)
         u = 0
         if self.unis[1] is not None and rng.random() < 0.3:
@@ -225,6 +225,9 @@ class World(BaseWorld):
             return {'op': 'lookup', 'lg': lg, 'type': t, 'channel': ch}
         if kind == 'new_lg' and len(self.lgs) >= 3:
             kind = 'regen'
+        if kind == 'scribble':
+            return {'op': 'scribble', 'lg': lg, 'types': [rng.choice(types) for _ in range(2)],
+                    'what': rng.choice(['resolver', 'nodes', 'nodes'])}
         if kind == 'gen_ag':
             ts = [rng.choice(types) for _ in range(rng.randint(1, 4))]
             links = []
@@ -350,6 +353,8 @@ class World(BaseWorld):
         elif kind == 'gen_ag':
             out = self._gen_ag(op['lg'], op['types'], op['links'], op.get('fault_at'),
                                check_types=op['types'])
+        elif kind == 'scribble':
+            out = self._scribble(op)
         elif kind == 'save_spec':
             p = self.fresh_path('.json')
             o = call(lg.save_language_specification_to_json, p)
@@ -366,6 +371,52 @@ class World(BaseWorld):
         self._check_spec(kind)
         self.count('out:' + out)
         return [kind, out, '']
+
+    def _scribble(self, op):
+        """A client edits, in place, data it was handed (the dict returned by the
+        resolver; tags / attributes / ttc of the nodes of an attack graph it built).
+        Nothing anybody else sees may change: the lookup is pure."""
+        from maltoolbox.attackgraph import AttackGraph
+        lg = self.lgs[op['lg']]
+        for t in op['types']:
+            if t not in self.expected:
+                raise Unresolvable()
+        junk = {'type': 'attackStep', 'name': 'scribbled'}
+        if op.get('what') == 'resolver':
+            fn = getattr(lg, '_get_attacks_for_asset_type', None)
+            if fn is None:
+                return 'ok'
+            for t in op['types']:
+                o = call(fn, t)
+                if o.raised:
+                    continue
+                for attrs in o.value.values():
+                    attrs['tags'].append('scribbled')
+                    attrs['meta']['scribbled'] = 'x'
+                    if attrs.get('reaches'):
+                        attrs['reaches']['stepExpressions'].append(dict(junk))
+                    if isinstance(attrs.get('ttc'), dict):
+                        attrs['ttc']['scribbled'] = 1
+        else:
+            m = self._tiny_model(op['lg'], op['types'], [])
+            o = call(AttackGraph, lg, m)
+            if o.raised:
+                return 'raised'
+            for node in o.value.nodes:
+                if isinstance(node.tags, list):
+                    node.tags.append('scribbled')
+                if isinstance(node.ttc, dict):
+                    node.ttc['scribbled'] = 1
+                if isinstance(node.attributes, dict):
+                    node.attributes['meta']['scribbled'] = 'x'
+                    if node.attributes.get('reaches'):
+                        node.attributes['reaches']['stepExpressions'].append(dict(junk))
+        self.count('probe:client_scribbled_on_results')
+        # every type must still answer with the reference fold, through every channel
+        for t in op['types']:
+            for ch in ('resolver', 'assets'):
+                self._apply_in({'op': 'lookup', 'lg': op['lg'], 'type': t, 'channel': ch})
+        return 'ok'
 
     def _gen_ag(self, i, types, links, fault_at, check_types):
         from maltoolbox.attackgraph import AttackGraph
